@@ -160,7 +160,7 @@ def run(tier, seed, ck=None):
     if own:
         # the verdicts above are about single calls from the initial package state: histories (observe, scribble on returned slices, mutate, observe) must not change them
         from props import hidden
-        hidden.embed(ck, tier, ('scalar',), 'C13', 'a scalar predicate')
+        hidden.embed(ck, tier, ('scalar',), 'C13', 'a scalar predicate', observers=['isz', 'isone', 'eq', 'le'])
     return ck.finish() if own else None
 
 
